@@ -4,3 +4,6 @@ import AxVerif.Model.Wire
 import AxVerif.Generated.Wire
 import AxVerif.Driver.Wire
 import AxVerif.Thm.C20
+import AxVerif.Thm.C01
+import AxVerif.Thm.C02
+import AxVerif.Thm.C08
